@@ -67,7 +67,7 @@ def binpath(profile, b):
 
 
 # ----------------------------------------------------------------------------- traces
-def gen_trace(pid, name, profile, binname, args, timeout=3000):
+def gen_trace(pid, name, profile, binname, args, timeout=1500):
     d = os.path.join(WORK, pid)
     os.makedirs(d, exist_ok=True)
     out = os.path.join(d, name + ".ndjson")
